@@ -868,10 +868,11 @@ class Session(Family):
 # family `bulk`: large stores and large import files (thousands of hosts, megabytes), crash at a late boundary
 # ----------------------------------------------------------------------------------------------
 def bulk_name(salt: int, tag: str, i: int, length: int) -> str:
-    """a host name of `length` characters (DNS allows 253), spread evenly over the key space"""
+    """a host name of about `length` characters (DNS allows 253), spread evenly over the key space, distinct for distinct i"""
     h = hashlib.sha256(f"{salt}:{tag}:{i}".encode()).hexdigest()
-    body = (h * (length // 64 + 1))[: max(length - 8, 1)]
-    return ".".join(body[j:j + 60] for j in range(0, len(body), 60)) [: max(length - 8, 1)] + ".example"
+    uniq = f"{h[:4]}{i:x}"
+    body = (uniq + h * (length // 64 + 1))[: max(length - 8, len(uniq))]
+    return ".".join(body[j:j + 60] for j in range(0, len(body), 60))[: max(length - 8, len(uniq))] + ".example"
 
 
 def bulk_store(case: dict) -> list:
